@@ -355,6 +355,17 @@ def run(tier):
                         'bound': 'array shapes 1x1..3x3, 3 random fillings each, flip 0..3, rotate 0..4', 'evaluations': na})
     for b in bada[:3]:
         rep.violation('C15/arrays/%s=%s/%s' % (b[0], b[1], b[3]), '%s_udgs(udgs, %d) on a %dx%d array: %s grid differs from the reference transformation' % (b[0], b[1], b[2][0], b[2][1], b[3]), {'case': {'array_op': b[0], 'arg': b[1], 'shape': list(b[2])}})
+    nm, badm = macro_layer(common.seed(), 600 if tier == 'quick' else 6000)
+    rep.bounded.append({'function': 'skoolkit.sna2img MACROS (skoolmacro.parse_udg / parse_udgarray / parse_font / parse_scr, graphics.build_udg / adjust_udgs / font_udgs / scr_udgs)',
+                        'contract': 'the frame holds exactly the tiles, mask bytes, attributes, flip/rotation, scale, mask type, crop, tindex and alpha that the macro parameters name (parameter defaults as documented)',
+                        'bound': '%d macros: 48 enumerating which step parameters are present x mask type, the rest random (1-3 x 1-2 tiles, all address range forms)' % nm, 'evaluations': nm})
+    seenm = set()
+    for b in badm:
+        key = 'C15/macro/%s/%s' % (b[0], b[2])
+        if key in seenm:
+            continue
+        seenm.add(key)
+        rep.violation(key, '#%s%s: %s' % (b[0], b[1], b[3]), {'case': {'macro': b[0], 'text': b[1], 'seed': common.seed()}, 'observed': b[3]})
     quick = tier == 'quick'
     n = 300 if quick else 6000
     per = max(1, n // (common.NCPU * 2))
@@ -390,6 +401,14 @@ def replay(path):
         if doc.get('no_failing_input_found'):
             print(doc.get('what'))
             print('VIOLATION property=C15 replay=%s no-failing-input-found' % path)
+            return 1
+        return 0
+    if isinstance(case, dict) and 'macro' in case:
+        n, bad = macro_layer(case.get('seed', common.seed()), 6000)
+        bad = [b for b in bad if b[0] == case['macro']] or bad
+        print(bad[:2])
+        if bad:
+            print('VIOLATION property=C15 replay=%s' % path)
             return 1
         return 0
     if isinstance(case, dict) and 'udg_method' in case:
@@ -559,6 +578,209 @@ def arrays_small_scope():
                         if got != exp:
                             bad.append((kind, arg, (h, w), attr))
     return n, bad
+
+
+# ------------------------------------------------------------------ B: the macro layer (#UDG, #UDGARRAY, #FONT, #SCR as sna2img -e runs them)
+def _tile_grid(udgs):
+    """Pixel grid of (graphic bit, mask bit or None, attribute) triples for an array of tiles."""
+    g = []
+    for row in udgs:
+        for y in range(8):
+            line = []
+            for u in row:
+                for x in range(8):
+                    line.append(((u.data[y] >> (7 - x)) & 1, None if u.mask is None else (u.mask[y] >> (7 - x)) & 1, u.attr))
+            g.append(line)
+    return g
+
+
+def _ref_flip_rotate(g, flip, rotate):
+    H, W = len(g), len(g[0])
+    g = [[g[(H - 1 - y) if flip & 2 else y][(W - 1 - x) if flip & 1 else x] for x in range(W)] for y in range(H)]
+    for _ in range(rotate % 4):
+        hh, ww = len(g), len(g[0])
+        g = [[g[hh - 1 - x][y] for x in range(hh)] for y in range(ww)]
+    return g
+
+
+class _RefTile:
+    def __init__(self, attr, data, mask=None):
+        self.attr, self.data, self.mask = attr, data, mask
+
+
+def macro_layer(seed, n):
+    """Contract of the macro layer, from the macro documentation: the frame that sna2img's -e handlers build for a
+    #UDG / #UDGARRAY / #FONT / #SCR macro holds exactly the tiles the parameters name (graphic bytes at addr + k*step
+    plus inc, mask bytes at mask addr + k*mask step with the mask step defaulting to the tile's own step, attribute,
+    flip then rotate) and the scale / mask type / crop rectangle / tindex / alpha given. The first cases enumerate which
+    of the optional step parameters are present; the rest are random. Bounded."""
+    import random
+    from skoolkit import sna2img
+    rnd = random.Random(seed * 7919 + 15)
+    snap = [rnd.randrange(256) for _ in range(65536)]
+    bad = []
+    ev = 0
+
+    def opt(name, val, present):
+        return ',%s=%d' % (name, val) if present else ''
+
+    def addr_form(rnd_, count, width):
+        """-> (text, list of addresses): one of the documented address range forms."""
+        a = rnd_.randrange(24000, 50000)
+        k = rnd_.randrange(5) if count > 1 else rnd_.choice((0, 3))
+        if count == 1 and k == 0:
+            return str(a), [a]
+        if k == 0:
+            return '%d-%d' % (a, a + count - 1), [a + i for i in range(count)]
+        if k == 1:
+            h = rnd_.randrange(1, 20)
+            return '%d-%d-%d' % (a, a + (count - 1) * h, h), [a + i * h for i in range(count)]
+        if k == 2 and count % width == 0 and count // width > 1:
+            h = rnd_.randrange(1, 9)
+            v = rnd_.randrange((width - 1) * h + 1, (width - 1) * h + 300)
+            rows = count // width
+            last = a + (rows - 1) * v + (width - 1) * h
+            return '%d-%d-%d-%d' % (a, last, h, v), [a + r * v + c * h for r in range(rows) for c in range(width)]
+        if k == 3:
+            return '%dx%d' % (a, count), [a] * count
+        return '$%04X-$%04X' % (a, a + count - 1), [a + i for i in range(count)]
+
+    for t in range(n):
+        kind = ('UDGARRAY', 'UDG', 'UDGARRAY', 'FONT', 'UDGARRAY', 'SCR')[t % 6] if t >= 48 else ('UDGARRAY', 'UDG')[t % 2]
+        ev += 1
+        scale = rnd.randrange(1, 5)
+        tindex, alpha = rnd.randrange(0, 3), rnd.choice((-1, 0, 128, 255))
+        crop = rnd.random() < 0.4
+        cx, cy, cw, ch = rnd.randrange(0, 9), rnd.randrange(0, 9), rnd.randrange(1, 20), rnd.randrange(1, 20)
+        crop_txt = '{%d,%d,%d,%d}' % (cx, cy, cw, ch) if crop else ''
+        exp_crop = (cx, cy, cw, ch) if crop else (0, 0, None, None)
+        try:
+            if kind in ('UDGARRAY', 'UDG'):
+                # presence of the three step parameters: enumerated over the first 48 cases, random afterwards
+                if t < 48:
+                    bits = t // 2
+                    p_step, p_ustep, p_mstep = bits & 1, (bits >> 1) & 1, (bits >> 2) & 1
+                    mask = (1, 2, 0)[(bits >> 3) % 3]
+                else:
+                    p_step, p_ustep, p_mstep = (rnd.random() < 0.5 for _ in range(3))
+                    mask = rnd.randrange(3)
+                step, ustep, mstep = rnd.choice((2, 3, 256)), rnd.choice((4, 5, 128)), rnd.choice((6, 7, 64))
+                attr, inc = rnd.randrange(256), rnd.choice((0, 0, 1, 200))
+                flip, rotate = rnd.randrange(4), rnd.randrange(4)
+                p_attr, p_inc = rnd.random() < 0.6, rnd.random() < 0.4
+                eff_step = step if p_step else 1
+            if kind == 'UDG':
+                a, m = rnd.randrange(24000, 50000), rnd.randrange(24000, 50000)
+                with_mask = t < 48 or rnd.random() < 0.7
+                text = '%d%s%s%s%s%s%s%s%s%s' % (a, opt('attr', attr, p_attr), opt('scale', scale, True), opt('step', step, p_step), opt('inc', inc, p_inc),
+                                                   opt('flip', flip, True), opt('rotate', rotate, True), opt('mask', mask, True), opt('tindex', tindex, True), opt('alpha', alpha, alpha >= 0))
+                if with_mask:
+                    text += ':%d' % m + (',%d' % mstep if p_mstep else '')
+                text += crop_txt
+                e_mstep = mstep if p_mstep else eff_step
+                e_inc = inc if p_inc else 0
+                tile = _RefTile(attr if p_attr else 56, [(snap[a + k * eff_step] + e_inc) % 256 for k in range(8)],
+                                [snap[m + k * e_mstep] for k in range(8)] if with_mask and mask else None)
+                exp_grid = _ref_flip_rotate(_tile_grid([[tile]]), flip, rotate)
+                exp_mask = mask if with_mask else 0
+            elif kind == 'UDGARRAY':
+                width = rnd.randrange(1, 4)
+                rows = rnd.randrange(1, 3)
+                text = '%d%s%s%s%s%s%s%s%s%s(' % (width, opt('attr', attr, p_attr), opt('scale', scale, True), opt('step', step, p_step), opt('inc', inc, p_inc),
+                                                    opt('flip', flip, True), opt('rotate', rotate, True), opt('mask', mask, True), opt('tindex', tindex, True), opt('alpha', alpha, alpha >= 0))
+                total = width * rows
+                nspecs = rnd.randrange(1, 3) if total > 1 else 1
+                cut = rnd.randrange(1, total) if nspecs == 2 else total
+                if nspecs == 2 and cut % width:
+                    cut = width if total > width else total     # keep each spec a whole number of rows, so every address form is usable
+                    nspecs = 2 if cut < total else 1
+                counts = [cut, total - cut] if nspecs == 2 else [total]
+                tiles = []
+                specs = []
+                any_mask = False
+                for si, count in enumerate(counts):
+                    atxt, addrs = addr_form(rnd, count, width)
+                    s_ustep = p_ustep if si == 0 else rnd.random() < 0.5
+                    s_attr = rnd.random() < 0.4
+                    sattr = rnd.randrange(256)
+                    spec = atxt
+                    if s_ustep or s_attr:
+                        spec += ',%s' % (sattr if s_attr else '')
+                        if s_ustep:
+                            spec += ',%d' % ustep
+                    t_step = ustep if s_ustep else eff_step
+                    with_mask = (t < 48 and si == 0) or rnd.random() < 0.6
+                    maddrs = []
+                    s_mstep = p_mstep if si == 0 else rnd.random() < 0.5
+                    if with_mask:
+                        mtxt, maddrs = addr_form(rnd, count, width)
+                        spec += ':' + mtxt + (',%d' % mstep if s_mstep else '')
+                        any_mask = any_mask or bool(mask)
+                    t_mstep = mstep if s_mstep else t_step
+                    e_inc = inc if p_inc else 0
+                    for i, a in enumerate(addrs):
+                        mk = None
+                        if with_mask and mask and i < len(maddrs):
+                            mk = [snap[maddrs[i] + k * t_mstep] for k in range(8)]
+                        tiles.append(_RefTile(sattr if s_attr else (attr if p_attr else 56), [(snap[a + k * t_step] + e_inc) % 256 for k in range(8)], mk))
+                    specs.append(spec)
+                text += ';'.join(specs) + ')'
+                arr = [tiles[i:i + width] for i in range(0, len(tiles), width)]
+                if rnd.random() < 0.3:
+                    # attribute addresses override the attributes, row by row
+                    ab = rnd.randrange(22528, 23000)
+                    text += '[%d-%d]' % (ab, ab + total - 1)
+                    for i, tl in enumerate(tiles):
+                        tl.attr = snap[ab + i]
+                text += crop_txt
+                exp_grid = _ref_flip_rotate(_tile_grid(arr), flip, rotate)
+                exp_mask = mask if any_mask else 0
+            elif kind == 'FONT':
+                a = rnd.randrange(15360, 40000)
+                attr = rnd.randrange(256)
+                if rnd.random() < 0.5:
+                    chars = rnd.randrange(1, 6)
+                    msg = ''.join(chr(32 + i) for i in range(chars))
+                    text = '%d,%d,%d,%d,%d' % (a, chars, attr, scale, tindex) + (',%d' % alpha if alpha >= 0 else '')
+                else:
+                    msg = ''.join(rnd.choice('ABCxyz019 !~') for _ in range(rnd.randrange(1, 5)))
+                    text = '%d,0,%d,%d,%d%s(%s)' % (a, attr, scale, tindex, ',%d' % alpha if alpha >= 0 else '', msg)
+                text += crop_txt
+                exp_grid = _tile_grid([[_RefTile(attr, [snap[a + 8 * (ord(c) - 32) + k] for k in range(8)]) for c in msg]])
+                exp_mask = 0
+            else:
+                x, y = rnd.randrange(32), rnd.randrange(24)
+                w, h = rnd.randrange(1, 4), rnd.randrange(1, 3)
+                df, af = rnd.choice((16384, 32768, 40000)), rnd.choice((22528, 50000))
+                text = '%d,%d,%d,%d,%d,%d,%d,%d' % (scale, x, y, w, h, df, af, tindex) + (',%d' % alpha if alpha >= 0 else '') + crop_txt
+                arr = []
+                for r in range(y, min(24, y + h)):
+                    arr.append([_RefTile(snap[af + 32 * r + c], [snap[df + 2048 * (r // 8) + 32 * (r % 8) + c + 256 * k] for k in range(8)]) for c in range(x, min(32, x + w))])
+                exp_grid = _tile_grid(arr)
+                exp_mask = 0
+            frame = sna2img.MACROS[kind](snap, text)
+            got = {'grid': _tile_grid(frame.udgs), 'scale': frame.scale, 'mask': frame.mask, 'crop': (frame._x, frame._y, frame._width, frame._height), 'tindex': frame.tindex, 'alpha': frame.alpha}
+            exp = {'grid': exp_grid, 'scale': scale, 'mask': exp_mask, 'crop': exp_crop, 'tindex': tindex, 'alpha': alpha}
+            if exp['mask'] == 0:
+                # without a mask type the mask bytes are not used: compare graphic and attribute only
+                strip = lambda g: [[(b, None, a_) for b, _, a_ in row] for row in g]
+                got['grid'], exp['grid'] = strip(got['grid']), strip(exp['grid'])
+            diffs = [k for k in exp if got[k] != exp[k]]
+            if diffs:
+                d = diffs[0]
+                detail = ''
+                if d == 'grid':
+                    if len(got['grid']) != len(exp_grid) or len(got['grid'][0]) != len(exp_grid[0]):
+                        detail = 'array is %dx%d pixels, expected %dx%d' % (len(got['grid'][0]), len(got['grid']), len(exp['grid'][0]), len(exp['grid']))
+                    else:
+                        yy, xx = next((yy, xx) for yy in range(len(exp['grid'])) for xx in range(len(exp['grid'][0])) if got['grid'][yy][xx] != exp['grid'][yy][xx])
+                        detail = 'pixel (%d,%d): (bit, mask bit, attr) = %s, expected %s' % (xx, yy, got['grid'][yy][xx], exp['grid'][yy][xx])
+                else:
+                    detail = '%s = %s, expected %s' % (d, got[d], exp[d])
+                bad.append((kind, text, d, detail))
+        except Exception as ex:      # noqa: a macro built from the documented forms must parse
+            bad.append((kind, locals().get('text', ''), 'exception', repr(ex)[:160]))
+    return ev, bad
 
 
 # ------------------------------------------------------------------ frame condition: the writers are configuration, not state
